@@ -184,7 +184,7 @@ def run_shard(shard: Dict[str, Any]) -> Acc:
         contracts.install()
         contracts.ENABLED["graph"] = False
         for i in range(shard["n"]):
-            inp = libgen.gen_repcode_input(rng, max_distance=4, max_cycles=8)
+            inp = libgen.gen_repcode_input(rng, max_distance=4, max_cycles=8, composite_p=0.3)
             acc.hist("class", "library/" + inp["constructor"])
             acc.hist("cycles", inp["cycles"])
             acc.case(bp.phash(inp), inp["cycles"] >= 2, sample=inp if i < 3 else None)
